@@ -4,6 +4,7 @@
 #include "cfgmut.h"
 #include "apiops.h"
 #include <sstream>
+#include <set>
 
 namespace {
 
@@ -25,6 +26,12 @@ struct C13 : Prop {
 		J plan = J::obj();
 		cfg::GenOpts o; o.max_boards = thorough ? 4 : 3; o.max_trains = 3;
 		cfg::World w = cfg::gen_world(r, o);
+		// one run in eight: a board on the bus with 9-24 configured features (an accepted configuration of unusual size)
+		if (r.chance(125)) {
+			std::vector<cfg::Board *> pb; for (auto &b : w.boards) if (b.present) pb.push_back(&b);
+			if (!pb.empty()) { cfg::Board *b = pb[r.below(pb.size())]; std::set<int> fu; for (auto &f : b->features) fu.insert(f.first); int want = (int) r.range(9, 24);
+				while ((int) b->features.size() < want) { int num = (int) r.range(0, 120); if (fu.count(num)) continue; fu.insert(num); b->features.push_back({(uint8_t) num, r.byte()}); } }
+		}
 		cfg::install(plan, w, r);
 		// the boards' feature confirmations do not always come back in the order of the requests: now and then one is late and overtaken
 		if (r.chance(250)) { J bus = plan["bus"]; J td = J::arr(); for (int q = 0, n = (int) r.range(1, 3); q < n; q++) { J e = J::arr(); e.push((int) MSG_FEATURE); e.push((int) r.range(1, 14)); e.push((int) r.range(20, 400)); td.push(e); } bus.set("type_delay_once", td); plan.set("bus", bus); }
@@ -67,7 +74,18 @@ struct C13 : Prop {
 			se.set("kind", "mutated");
 			// the bus does not know that the host is restarting: boards log in and report while the start (and, for a rejected configuration,
 			// the shutdown that follows it) is going on
-			if (r.chance(500)) {
+			// a leaf board re-logs in while the node table is read (the table keeps its size; the interface signals the change by a new NODETAB_COUNT)
+			if (r.chance(150)) {
+				std::vector<const cfg::Board *> lf; for (auto &b : w.boards) if (b.present && b.addr.size() == 1 && !b.is_iface() && b.features.empty()) lf.push_back(&b);
+				if (!lf.empty()) {
+					const cfg::Board *b = lf[r.below(lf.size())];
+					J sev = J::arr(); int t0 = (int) r.range(2240000, 2500000);
+					J e1 = J::obj(); e1.set("at_us", t0); e1.set("topo", "lost"); e1.set("node", pc::jaddr(b->addr)); sev.push(e1);
+					J e2 = J::obj(); e2.set("at_us", t0 + (int) r.range(500, 30000)); e2.set("topo", "new"); e2.set("node", pc::jaddr(b->addr)); sev.push(e2);
+					se.set("start_bus", sev);
+				}
+			}
+			else if (r.chance(500)) {
 				std::vector<const cfg::Board *> bs; for (auto &b : w.boards) if (b.present && !b.addr.empty()) bs.push_back(&b);
 				if (!bs.empty()) {
 					const cfg::Board *b = bs[r.below(bs.size())];
